@@ -2,7 +2,7 @@
    Only the property theorems, each closed by [exact <lemma>].  The model is Model/Panel.v
    (lookup-or-create of GetSession is ONE atomic step: generated obligation
    sessions_guarded_by_sessionsM, re-proved from the Go source on every run, see C17.v). *)
-From Coq Require Import ZArith NArith List.
+From Coq Require Import ZArith NArith List Bool Arith.
 From Cloak Require Import Gen.Guards Model.Panel.
 From Cloak Require Import Proofs.LockOrder Proofs.PanelLocks Proofs.PanelWF Proofs.PanelOwn Proofs.PanelC15 Proofs.PanelRefute.
 Import ListNotations.
